@@ -431,6 +431,18 @@ func Shapes(k Kind) []Shape {
 			{Name: "48.8583701", Class: "float-7-decimals", Build: func(*Gen) reflect.Value { return val(48.8583701) }},
 			{Name: "1e-7", Class: "float-tiny", Build: func(*Gen) reflect.Value { return val(1e-7) }},
 			{Name: "1.5e15", Class: "float-large", Build: func(*Gen) reflect.Value { return val(1.5e15) }},
+			// magnitudes at which a writer may switch to exponent notation, with mantissas that do not survive a two-step
+			// (mantissa x power of ten) reading
+			{Name: "12345678.9", Class: "float-large", Build: func(*Gen) reflect.Value { return val(12345678.9) }},
+			{Name: "1234567.891", Class: "float-large", Build: func(*Gen) reflect.Value { return val(1234567.891) }},
+			{Name: "98765432.123456", Class: "float-large", Build: func(*Gen) reflect.Value { return val(98765432.123456) }},
+			{Name: "7.000001e9", Class: "float-large", Build: func(*Gen) reflect.Value { return val(7.000001e9) }},
+			{Name: "3e-05", Class: "float-tiny", Build: func(*Gen) reflect.Value { return val(3e-05) }},
+			{Name: "2.5e-5", Class: "float-tiny", Build: func(*Gen) reflect.Value { return val(2.5e-5) }},
+			{Name: "6.02214076e-6", Class: "float-tiny", Build: func(*Gen) reflect.Value { return val(6.02214076e-6) }},
+			{Name: "1e21", Class: "float-large", Build: func(*Gen) reflect.Value { return val(1e21) }},
+			{Name: "123456789012345680000", Class: "float-large", Build: func(*Gen) reflect.Value { return val(1.2345678901234568e20) }},
+			{Name: "0.1+0.2", Class: "float", Build: func(*Gen) reflect.Value { return val(0.1 + 0.2) }},
 		}
 	case KInt:
 		return []Shape{
